@@ -139,7 +139,7 @@ func main() {
 			}
 			stripBodyComments(f)
 			astutil.AddNamedImport(fset, f, "simrt", simrtPkg)
-			for _, ip := range []string{"golang.org/x/exp/maps"} {
+			for _, ip := range []string{"golang.org/x/exp/maps", "runtime", "time", "reflect"} {
 				if !astutil.UsesImport(f, ip) {
 					astutil.DeleteImport(fset, f, ip)
 				}
@@ -822,6 +822,12 @@ func (r *rewriter) rewriteCall(c *astutil.Cursor, call *ast.CallExpr) {
 		r.changed = true
 	case pkg == "maps" && (fn.Name() == "Keys" || fn.Name() == "Values" || fn.Name() == "All"):
 		inv.Uncontrolled = append(inv.Uncontrolled, r.site(call.Pos(), "std-maps."+fn.Name()))
+	case pkg == "runtime" && recvNamed(fn) == "" && (fn.Name() == "NumCPU" || fn.Name() == "GOMAXPROCS" || fn.Name() == "ReadMemStats"):
+		site := r.site(call.Pos(), "runtime."+fn.Name())
+		inv.ClockSites = append(inv.ClockSites, site)
+		call.Fun = &ast.SelectorExpr{X: ast.NewIdent("simrt"), Sel: ast.NewIdent(fn.Name())}
+		call.Args = append([]ast.Expr{strLit(site)}, call.Args...)
+		r.changed = true
 	case pkg == "reflect" && fn.Name() == "Select" && recvNamed(fn) == "":
 		site := r.site(call.Pos(), "reflect.Select")
 		inv.YieldSites = append(inv.YieldSites, site)
